@@ -323,6 +323,11 @@ def _construct(rng, cls, n, target):
                     v = rng.choice([a, b]); ops.append('V %d' % v)
                     for k2 in sorted(done):
                         if v in k2: ops.append(add(*orient(*k2), target[k2]))
+        if n > 0 and rng.random() < 0.2:                    # calls that must leave no trace: removal of a pair that is not an edge (never was, or was removed)
+            a, b = rng.randrange(n), rng.randrange(n)
+            kk = (min(a, b), max(a, b)) if und else (a, b)
+            if kk not in target:
+                ops.append(rng.choice(['R %d %d' % orient(a, b)] + (['MR %d %d %d' % (*orient(a, b), rng.randint(1, 3)), 'MS %d %d 0' % orient(a, b)] if multi else [])))
         r = rng.random()
         if multi and v > 1 and r < 0.4:
             v1 = rng.randint(1, v - 1); ops.append(add(*orient(i, j), v1)); ops.append(add(*orient(i, j), v - v1))
